@@ -90,6 +90,10 @@ type c12Scn struct {
 	Buf  int     `json:"buf"`            // bufio.Reader size (decode) / bufio.Writer size (encode)
 	Frag string  `json:"frag,omitempty"` // "" (all), whole, 1byte, cuts
 	Cuts []int   `json:"cuts,omitempty"`
+	// boundary families: ONE generated command instead of Cmds (c12e_test.go)
+	Count   int `json:"elements,omitempty"`  // DEL with Count-1 generated arguments of 0..8 bytes
+	BulkLen int `json:"bulk_len,omitempty"`  // SET k <argument of BulkLen patterned bytes>
+	RBuf    int `json:"reply_buf,omitempty"` // proto.Reader size used to read the encoding back (default 32)
 	// path "parse" only (c12e_test.go)
 	Start   int64 `json:"start_offset,omitempty"`
 	StartDb int   `json:"start_db,omitempty"`
@@ -101,6 +105,12 @@ type c12Cmd struct {
 }
 
 func (s *c12Scn) commands() []c12Cmd {
+	if s.Count > 0 {
+		return []c12Cmd{c12ManyArgs(s.Count)}
+	}
+	if s.BulkLen > 0 {
+		return []c12Cmd{{name: "SET", args: [][]byte{[]byte("k"), c12Pattern(s.BulkLen, uint32(s.BulkLen))}}}
+	}
 	out := make([]c12Cmd, len(s.Cmds))
 	for i, c := range s.Cmds {
 		out[i].name = c12Names[len(c)]
@@ -198,6 +208,10 @@ func refParse(p []byte) ([][]byte, int, error) {
 // stream builds the source byte stream, the stream position after each command's
 // last byte, and the token boundaries (used to pick split points for long streams).
 func (s *c12Scn) stream(cmds []c12Cmd) (data []byte, ends []int64, bounds []int) {
+	if s.Count > 0 || s.BulkLen > 0 { // one generated command, explicit fragmentations only
+		data = refEncode(make([]byte, 0, 16*s.Count+s.BulkLen+64), cmds[0])
+		return data, []int64{int64(len(data))}, nil
+	}
 	for i, c := range cmds {
 		for k := 0; k < s.HB[i]; k++ {
 			data = append(data, '\n')
@@ -382,7 +396,7 @@ func c12Compare(i int, want c12Cmd, cmd string, args [][]byte, kind string) *c12
 // client.NewCommand, written through a bufio.Writer of the given size; the bytes must
 // parse (RESP spec) to the same arguments and decode (repo decoder) to the same
 // arguments with offset == len.
-func c12EncodeResp(cmds []c12Cmd, wsize int) *c12Fail {
+func c12EncodeResp(cmds []c12Cmd, wsize, rsize int) *c12Fail {
 	for variant := 0; variant < 2; variant++ {
 		var sink bytes.Buffer
 		w := bufio.NewWriterSize(&sink, wsize)
@@ -404,7 +418,7 @@ func c12EncodeResp(cmds []c12Cmd, wsize int) *c12Fail {
 		if err := w.Flush(); err != nil {
 			return &c12Fail{"flush fails", "error", map[string]interface{}{"err": err.Error()}}
 		}
-		if f := c12CheckEncoded(sink.Bytes(), cmds, false); f != nil {
+		if f := c12CheckEncoded(sink.Bytes(), cmds, false, rsize); f != nil {
 			f.detail["constructor"] = []string{"ChangeArgsToResp", "NewCommand"}[variant]
 			return f
 		}
@@ -414,7 +428,7 @@ func c12EncodeResp(cmds []c12Cmd, wsize int) *c12Fail {
 
 // c12EncodeWriter: proto.Writer.WriteArgs exactly as RedisConn.send calls it
 // (command name as string, arguments as []byte), all commands through ONE writer.
-func c12EncodeWriter(cmds []c12Cmd, wsize int) *c12Fail {
+func c12EncodeWriter(cmds []c12Cmd, wsize, rsize int) *c12Fail {
 	var sink bytes.Buffer
 	w := proto.NewWriter(&sink, wsize)
 	for _, c := range cmds {
@@ -430,10 +444,13 @@ func c12EncodeWriter(cmds []c12Cmd, wsize int) *c12Fail {
 	if err := w.Flush(); err != nil {
 		return &c12Fail{"flush fails", "error", map[string]interface{}{"err": err.Error()}}
 	}
-	return c12CheckEncoded(sink.Bytes(), cmds, true)
+	return c12CheckEncoded(sink.Bytes(), cmds, true, rsize)
 }
 
-func c12CheckEncoded(enc []byte, cmds []c12Cmd, lowerName bool) *c12Fail {
+func c12CheckEncoded(enc []byte, cmds []c12Cmd, lowerName bool, rsize int) *c12Fail {
+	if rsize <= 0 {
+		rsize = 32
+	}
 	// (1) RESP-spec parse of the produced bytes
 	pos := 0
 	ends := make([]int64, 0, len(cmds))
@@ -471,7 +488,7 @@ func c12CheckEncoded(enc []byte, cmds []c12Cmd, lowerName bool) *c12Fail {
 		}
 	}
 	// (3) and with the reply reader of the target-side connection
-	rd := proto.NewReader(&fragReader{data: enc}, 32)
+	rd := proto.NewReader(&fragReader{data: enc}, rsize)
 	for i, c := range cmds {
 		v, err := rd.ReadReply()
 		if err != nil {
@@ -532,6 +549,9 @@ func c12Splits(n int, bounds []int, buf int, all bool) []int {
 // driver
 
 func (s *c12Scn) hasLong() bool {
+	if s.BulkLen > 0 {
+		return true
+	}
 	for _, c := range s.Cmds {
 		for _, a := range c {
 			if a >= c12Big {
@@ -543,6 +563,9 @@ func (s *c12Scn) hasLong() bool {
 }
 
 func (s *c12Scn) nontrivial() bool {
+	if s.Count > 0 || s.BulkLen > 0 {
+		return true
+	}
 	for _, h := range s.HB {
 		if h > 0 {
 			return true
@@ -566,6 +589,8 @@ func (s *c12Scn) shape() string {
 		}
 	}
 	switch {
+	case s.Count > 0:
+		return "many-args"
 	case hb:
 		return "heartbeat"
 	case s.hasLong():
@@ -578,7 +603,7 @@ func (s *c12Scn) shape() string {
 
 func c12Result(s *c12Scn, f *c12Fail) mc.Result {
 	sig := "C12:" + s.Path + ":" + f.kind
-	if s.Path == "decode" && (f.kind == "offset" || f.kind == "error" || f.kind == "phantom") {
+	if (s.Path == "decode" && (f.kind == "offset" || f.kind == "error" || f.kind == "phantom")) || s.Count > 0 {
 		sig += ":" + s.shape()
 	}
 	f.detail["stream_shape"] = s.shape()
@@ -610,8 +635,13 @@ func c12RunDecode(s c12Scn, pairs bool) (mc.Result, *c12Scn, int) {
 		v.Frag, v.Cuts = frag, cuts
 		return *r, &v, runs
 	}
-	if s.Frag != "" { // replay of one recorded fragmentation
-		if r := one(s.Frag, s.Cuts, &obs); r != nil {
+	if s.Frag != "" { // one given fragmentation (replay, boundary families)
+		po := &obs
+		if s.Count > 0 || s.BulkLen > 0 {
+			po = nil
+			obs = []string{s.Path, strconv.Itoa(s.Count), strconv.Itoa(s.BulkLen), strconv.Itoa(s.Buf), s.Frag, fmt.Sprint(s.Cuts)}
+		}
+		if r := one(s.Frag, s.Cuts, po); r != nil {
 			return fail(r, s.Frag, s.Cuts)
 		}
 		return mc.OK(mc.Hash(obs...), s.nontrivial(), runs), nil, runs
@@ -646,14 +676,14 @@ func c12RunEncode(s c12Scn) mc.Result {
 	cmds := s.commands()
 	var f *c12Fail
 	if s.Path == "encode-resp" {
-		f = c12EncodeResp(cmds, s.Buf)
+		f = c12EncodeResp(cmds, s.Buf, s.RBuf)
 	} else {
-		f = c12EncodeWriter(cmds, s.Buf)
+		f = c12EncodeWriter(cmds, s.Buf, s.RBuf)
 	}
 	if f != nil {
 		return c12Result(&s, f)
 	}
-	parts := []string{s.Path, strconv.Itoa(s.Buf)}
+	parts := []string{s.Path, strconv.Itoa(s.Buf), strconv.Itoa(s.Count), strconv.Itoa(s.BulkLen), strconv.Itoa(s.RBuf)}
 	for _, c := range s.Cmds {
 		parts = append(parts, fmt.Sprint(c))
 	}
@@ -878,6 +908,7 @@ func runC12(rep *mc.Reporter) {
 			encode("huge-pair", [][]int{{c12Huge}, o})
 		}
 	}
+	c12RunBoundaries(rep, mine, thorough, &decoderRuns, &parserRuns)
 	rep.Count("decoder_runs", decoderRuns)
 	rep.Count("parser_runs", parserRuns)
 	if budget.Expired() {
